@@ -21,6 +21,7 @@ CfgOf(r) == [tk |-> r.tk, enc |-> EncSet(r.enc), comp |-> CompSet(r.comp),
 
 ServerOps(c, o) ==
   << <<"C03_EstablishedSoundness", C03_EstablishedSoundness(c, o)>>,
+     <<"C03_AsPresented", C03_AsPresented(o)>>,
      <<"C07_EmitOrder", C07_EmitOrder(c, o)>>,
      <<"C07_OneIdOneSender", C07_OneIdOneSender(c, o)>>,
      <<"C07_Monotone", C07_Monotone(c, o)>>,
